@@ -388,6 +388,17 @@ func c05RatNorm(n *Term, d *big.Int) *BigRat {
 	if !ok {
 		unsupported("C05 rat model: denominator with too many / unknown divisors")
 	}
+	// the common case first: no prime factor of d divides n
+	coprime := mkBool(true)
+	for i := len(ds) - 1; i >= 0; i-- {
+		g := ds[i]
+		if g.ProbablyPrime(20) {
+			coprime = mkAnd(coprime, mkNot(mkEq(mkIBin(OIMod, n, mkInt(g)), mkInt64(0))))
+		}
+	}
+	if inBranch(coprime) {
+		return &BigRat{num: *mkBigInt(n), den: BigInt{c: d}}
+	}
 	for _, g := range ds {
 		if inBranch(mkEq(mkIBin(OIMod, n, mkInt(g)), mkInt64(0))) {
 			q := mkIBin(OIDiv, n, mkInt(g))
@@ -593,5 +604,28 @@ func c05EnsureNumDenom() {
 		d := x.den
 		*c = &d
 		return c
+	})
+}
+
+// (*big.Float).Int with a nil destination: the generic native fallback returned a wrong
+// result for (z=nil) — Bignum.Equal / DoubleFloat.Equal use f.Int(nil); modelled directly
+// on the concrete float.
+func init() {
+	reg("(*math/big.Float).Int", func(fr *frame, fn *ssa.Function, args []Val) Val {
+		p, ok := args[0].(*Val)
+		if !ok || p == nil {
+			return bigMethodNative(fr, fn, args)
+		}
+		bf, ok := (*p).(*BigFloat)
+		if !ok {
+			return bigMethodNative(fr, fn, args)
+		}
+		z, acc := bf.f.Int(nil)
+		if !isNilVal(args[1]) {
+			bigOf(fr, args[1])
+			setBig(args[1], &BigInt{c: z})
+			return Tuple{args[1], int64(acc)}
+		}
+		return Tuple{newBigCell(z), int64(acc)}
 	})
 }
